@@ -502,7 +502,11 @@ def crash_signature(ops):
     diagnosed = any(("runtime error:" in l or "ERROR: AddressSanitizer" in l) for l in err.splitlines())
     if rc == 0 or not diagnosed:
         # the sanitizer build does not show it (layout dependent, e.g. an uninitialised size field): ask valgrind about the plain build
-        rc2, _, err2 = run_harness("h_store", "CASE x\nRESET\n" + "\n".join(ops) + "\n", asan=False, timeout=300)
+        rc2, _, err2 = run_harness("h_store", "CASE x\nRESET\n" + "\n".join(ops) + "\n", asan=False, timeout=300, env={"QSX_LOG": "1"})
+        logs = [l for l in err2.splitlines() if l.startswith("LOG ")]
+        if rc2 == 1 and logs and "WHAT:" in logs[-1]:
+            # matrix_addrow's internal consistency test: the library calls exit(1)
+            return True, "library called exit(1) in matrix_addrow (log: %s) @ matrix_addrow qsopt_ex/lib.c" % logs[-1][4:]
         vg = valgrind_first_error(ops)
         if rc2 == 0 and rc == 0 and not vg:
             return False, ""
@@ -525,7 +529,8 @@ def crash_signature(ops):
 
 
 def valgrind_first_error(ops):
-    import shutil
+    """first memcheck error with library frames: 'kind: f1 < f2 < f3 ...' (innermost first)"""
+    import shutil, re
     if not shutil.which("valgrind"):
         return ""
     exe = os.path.join(build_repo(), "h_store")
@@ -533,21 +538,37 @@ def valgrind_first_error(ops):
         r = sh(["valgrind", "-q", "--error-limit=no", exe], input="CASE x\nRESET\n" + "\n".join(ops) + "\n", timeout=600)
     except subprocess.TimeoutExpired:
         return ""
-    lines = r.stderr.splitlines()
+    lines = [l.split("== ", 1)[-1] for l in r.stderr.splitlines()]
+    errs = []
     for i, l in enumerate(lines):
-        if "Conditional jump or move depends on uninitialised" in l or "Invalid write" in l or "Invalid read" in l or "Invalid free" in l:
-            for l2 in lines[i + 1:i + 8]:
-                if "qsopt_ex" in l2 or "_mpq.c" in l2 or "_dbl.c" in l2 or "_mpf.c" in l2:
-                    return l.split("== ", 1)[-1].strip() + " " + l2.split("== ", 1)[-1].strip()
-            return l.split("== ", 1)[-1].strip()
-    return ""
+        if l.startswith("Conditional jump") or l.startswith("Invalid ") or l.startswith("Use of uninitialised"):
+            frames = []
+            for l2 in lines[i + 1:i + 12]:
+                m = re.match(r"\s+(?:at|by) 0x[0-9A-F]+: (\w+)", l2)
+                if not m:
+                    break
+                frames.append(m.group(1))
+            lib = [f for f in frames if re.match(r"(mpq|dbl|mpf)_(ILL|QS)|QS|ILL", f)]
+            if lib:
+                errs.append((l.strip(), lib))
+    if not errs:
+        return ""
+    # an error inside ILLlib_addrows (uninitialised rownorms_size) explains the later invalid writes: prefer it
+    for kind, lib in errs:
+        if any("ILLlib_addrows" in f for f in lib):
+            return "%s: %s" % (kind, " < ".join(lib[:5]))
+    inv = [e for e in errs if e[0].startswith("Invalid")]
+    kind, lib = (inv or errs)[0]
+    return "%s: %s" % (kind, " < ".join(lib[:5]))
 
 
 def crash_site(sig):
     """coarse site key used in known-finding matches: function (or source file) of the first library frame"""
     import re
     if sig.startswith("plain build"):
-        m = re.search(r"(?:at|by) 0x[0-9A-F]+: (\w+) \(", sig)
+        if "ILLlib_addrows" in sig:
+            return "ILLlib_addrows"
+        m = re.search(r"valgrind: [^:]*: (\w+)", sig)
         return re.sub(r"^(mpq|dbl|mpf)_", "", m.group(1)) if m else "plain-build-only"
     m = re.search(r"@ (?:0x[0-9a-f]+ in )?(\w+) qsopt_ex/", sig)
     if m:
